@@ -67,6 +67,9 @@ func (c *fctx) expr(e ast.Expr, want string) (string, string) {
 			}
 		}
 	case *ast.SelectorExpr:
+		if id, ok := x.X.(*ast.Ident); ok && id.Obj == nil && t.consts[id.Name+"_"+x.Sel.Name] != nil { // pkg.Const, from the hints
+			return c.expr(&ast.Ident{Name: id.Name + "_" + x.Sel.Name, NamePos: x.Pos()}, want)
+		}
 		if v, ty := c.expr(x.X, ""); t.recs[ty] != nil {
 			if fl := c.field(ty, x.Sel); fl != nil {
 				return fl.coq + " " + paren(v), fl.typ
@@ -97,10 +100,16 @@ func (c *fctx) expr(e ast.Expr, want string) (string, string) {
 				return el[1], unparen(strings.TrimPrefix(xt, "list "))
 			}
 		}
-		if m, mt := c.expr(x.X, ""); strings.HasPrefix(mt, "alist ") {
+		m, mt := c.expr(x.X, "")
+		if strings.HasPrefix(mt, "alist ") {
 			vt := unparen(strings.TrimPrefix(mt, "alist "))
 			key, _ := c.expr(x.Index, "string")
 			return "odef " + t.zero(vt) + " (lookup " + paren(m) + " " + paren(key) + ")", vt
+		}
+		if strings.HasPrefix(mt, "list ") { // xs[k]: assumed in range (Go would panic); the zero value otherwise
+			vt := unparen(strings.TrimPrefix(mt, "list "))
+			k, _ := c.expr(x.Index, "Z")
+			return "nth (Z.to_nat " + paren(k) + ") " + paren(m) + " " + paren(t.zero(vt)), vt
 		}
 	case *ast.SliceExpr:
 		if v, ty := c.expr(x.X, want); strings.HasPrefix(ty, "list ") && !x.Slice3 {
@@ -130,6 +139,36 @@ func (t *tr) isOpaque(ty string) bool {
 	return false
 }
 
+// isDropped: a call the unit declares as not modelled (statistics, logging).
+func (t *tr) isDropped(x *ast.CallExpr) bool {
+	src := t.src(x.Fun)
+	for _, p := range t.unit.drop {
+		if strings.HasPrefix(src, p) {
+			return true
+		}
+	}
+	return false
+}
+
+// isConversion: T(x) where T is a type name (builtin, or a named type of the package / the hints that is not a struct).
+func (c *fctx) isConversion(f ast.Expr) bool {
+	switch x := f.(type) {
+	case *ast.Ident:
+		if x.Obj != nil && c.names[x.Obj] != "" {
+			return false
+		}
+		switch x.Name {
+		case "int", "int8", "int16", "int32", "int64", "uint", "uint8", "uint16", "uint32", "uint64", "byte", "string":
+			return true
+		}
+		return c.t.named[x.Name] != nil
+	case *ast.SelectorExpr:
+		id, ok := x.X.(*ast.Ident)
+		return ok && id.Obj == nil && c.t.named[id.Name+"_"+x.Sel.Name] != nil
+	}
+	return false
+}
+
 func isLit(e ast.Expr) bool {
 	_, ok := e.(*ast.BasicLit)
 	return ok
@@ -155,6 +194,13 @@ func (c *fctx) binary(x *ast.BinaryExpr) (string, string) {
 		}
 		if isNil(r) { // p != nil on a pointer / error
 			v, ty := c.expr(l, "")
+			if t.isOpaque(ty) { // a channel / interface value: nil-ness is a Section Variable
+				isnil := t.svar(ty+"_is_nil", ty+" -> bool", x) + " " + paren(v)
+				if x.Op == token.NEQ {
+					return "negb (" + isnil + ")", "bool"
+				}
+				return isnil, "bool"
+			}
 			if !strings.HasPrefix(ty, "option ") {
 				t.fail(x, "comparison with nil of a value of type %s", ty)
 			}
@@ -271,8 +317,26 @@ func (c *fctx) call(x *ast.CallExpr, want string) (string, string) {
 	arg := func(i int, want string) (string, string) { v, ty := c.expr(x.Args[i], want); return paren(v), ty }
 	switch {
 	case name == "len" && len(x.Args) == 1:
-		v, _ := arg(0, "")
+		v, ty := arg(0, "")
+		if ty == "string" {
+			return "slen " + v, "Z"
+		}
 		return "zlen " + v, "Z"
+	case len(x.Args) == 1 && c.isConversion(x.Fun): // T(x) between integer types, or between string types: the value
+		v, ty := arg(0, "")
+		if to := t.typ(x.Fun); to == ty {
+			return v, ty
+		}
+		t.fail(x, "conversion %s", t.src(x))
+	case name == "make" && len(x.Args) == 1: // make(map[string]T)
+		if _, ok := x.Args[0].(*ast.MapType); ok {
+			return "[]", t.typ(x.Args[0])
+		}
+		if _, ok := x.Args[0].(*ast.ChanType); ok && c.made == nil { // make(chan T): the channel this call of the function allocates
+			c.made = x
+			ty := t.typ(x.Args[0])
+			return t.svar("make_"+ty, ty, x), ty
+		}
 	case name == "append" && len(x.Args) == 2:
 		a, ta := arg(0, want)
 		if x.Ellipsis.IsValid() {
@@ -284,12 +348,6 @@ func (c *fctx) call(x *ast.CallExpr, want string) (string, string) {
 	case name == "make" && len(x.Args) == 2 && t.src(x.Args[1]) == "0": // make([]T, 0)
 		if ty := t.typ(x.Args[0]); strings.HasPrefix(ty, "list ") {
 			return "[]", ty
-		}
-	case name == "make" && len(x.Args) == 1: // make(chan T): the channel this call of the function allocates
-		if _, ok := x.Args[0].(*ast.ChanType); ok && c.made == nil {
-			c.made = x
-			ty := t.typ(x.Args[0])
-			return t.svar("make_"+ty, ty, x), ty
 		}
 	case name == "time.Now" && len(x.Args) == 0: // one clock reading per call of the translated function
 		return t.svar("time_Now", "Z", x), "Z"
@@ -313,43 +371,131 @@ func (c *fctx) call(x *ast.CallExpr, want string) (string, string) {
 		}
 	}
 	// anything else: a Section Variable named after the callee, typed by the arguments and the context
+	if c.isAction(x) {
+		t.fail(x, "call %s inside an expression (calls through this field are traced: assign the result first)", t.src(x.Fun))
+	}
+	code, res, _ := c.foreign(x, want)
+	if len(res) != 1 {
+		t.fail(x, "call %s with %d results inside an expression", t.src(x.Fun), len(res))
+	}
+	return code, res[0]
+}
+
+// sigResults: result types of a declared signature.
+func (t *tr) sigResults(ft *ast.FuncType) []string {
+	var out []string
+	if ft.Results != nil {
+		for _, r := range ft.Results.List {
+			n := len(r.Names)
+			if n == 0 {
+				n = 1
+			}
+			for i := 0; i < n; i++ {
+				out = append(out, t.typ(r.Type))
+			}
+		}
+	}
+	return out
+}
+
+// methodSig: signature of method m of a value of (Gallina) type ty, from the package, the unit's hints or an interface.
+func (t *tr) methodSig(ty, m string) *ast.FuncType {
+	if d := t.decls[ty+"."+m]; d != nil {
+		return d.Type
+	}
+	if it := t.ifaces[ty]; it != nil {
+		for _, f := range it.Methods.List {
+			if ft, ok := f.Type.(*ast.FuncType); ok && len(f.Names) == 1 && f.Names[0].Name == m {
+				return ft
+			}
+		}
+	}
+	return nil
+}
+
+// foreign: a call of something that is not translated, as the application of a Section Variable named
+// after the callee.  Returns the code, the result types and the name.  Result types come from the
+// declaration (package, hints, interface) if there is one, else from a small table, else from the context.
+func (c *fctx) foreign(x *ast.CallExpr, want string) (string, []string, string) {
+	t := c.t
+	name := t.src(x.Fun)
 	var args, tys []string
-	res := want
+	var res []string
+	known := false
 	coqName := ""
 	switch f := x.Fun.(type) {
 	case *ast.Ident:
 		coqName = f.Name
-		if d := t.decls[f.Name]; d != nil && d.Type.Results != nil && len(d.Type.Results.List) == 1 {
-			res = t.typ(d.Type.Results.List[0].Type)
+		if d := t.decls[f.Name]; d != nil {
+			res, known = t.sigResults(d.Type), true
 		}
 	case *ast.SelectorExpr:
 		if id, ok := f.X.(*ast.Ident); ok && id.Obj == nil && t.consts[id.Name] == nil && t.vars[id.Name] == nil { // pkg.F
 			coqName = id.Name + "_" + f.Sel.Name
-			if r, ok := libResult[name]; ok {
-				res = r
+			if d := t.decls[coqName]; d != nil {
+				res, known = t.sigResults(d.Type), true
+			} else if r, ok := libResult[name]; ok {
+				res, known = []string{r}, true
 			}
 		} else { // method of a value that is not a listed receiver: the value is the first argument
 			v, ty := c.expr(f.X, "")
-			coqName = strings.TrimPrefix(ty, "option ") + "_" + f.Sel.Name
+			base := strings.TrimPrefix(ty, "option ")
+			coqName = base + "_" + f.Sel.Name
 			if strings.ContainsAny(coqName, " ()") {
 				t.fail(x, "method call on a value of type %s", ty)
+			}
+			if ft := t.methodSig(base, f.Sel.Name); ft != nil {
+				res, known = t.sigResults(ft), true
 			}
 			args, tys = append(args, paren(v)), append(tys, paren(ty))
 		}
 	}
-	if nonNilError[name] {
-		res = t.needOpaque("error_T")
+	if nonNilError[name] { // an opaque non-nil error identified by its first argument (the message / format)
+		v, ty := c.expr(x.Args[0], "string")
+		code := t.svar(coqName, ty+" -> "+t.needOpaque("error_T"), x) + " " + paren(v)
+		return "Some (" + code + ")", []string{"option error_T"}, coqName
 	}
-	if coqName == "" || res == "" {
+	if !known && want != "" {
+		res = []string{want}
+	} else if !known {
 		t.fail(x, "call %s (callee or result type not understood)", firstLine(t.src(x)))
 	}
 	for i := range x.Args {
-		v, ty := arg(i, "")
-		args, tys = append(args, v), append(tys, paren(ty))
+		v, ty := c.expr(x.Args[i], "")
+		args, tys = append(args, paren(v)), append(tys, paren(ty))
 	}
-	code := strings.Join(append([]string{t.svar(coqName, strings.Join(append(tys, res), " -> "), x)}, args...), " ")
-	if nonNilError[name] {
-		return "Some (" + code + ")", "option error_T"
+	rt := "unit"
+	if len(res) > 0 {
+		rt = strings.Join(res, " * ")
 	}
-	return code, res
+	if len(res) > 1 {
+		rt = "(" + rt + ")"
+	}
+	code := strings.Join(append([]string{t.svar(coqName, strings.Join(append(tys, rt), " -> "), x)}, args...), " ")
+	return code, res, coqName
+}
+
+// isAction: a method call through one of the receiver fields the unit lists in `actions`; such calls are
+// recorded in the effect list in program order, in addition to returning a value.
+func (c *fctx) isAction(x *ast.CallExpr) bool { return c.t.isAction(x, c.f.recv) }
+
+func (t *tr) isAction(x *ast.CallExpr, recv *ast.Object) bool {
+	sel, ok := x.Fun.(*ast.SelectorExpr)
+	if !ok {
+		return false
+	}
+	fs, ok := sel.X.(*ast.SelectorExpr)
+	if !ok {
+		return false
+	}
+	id, ok := fs.X.(*ast.Ident)
+	if !ok || id.Obj == nil || id.Obj != recv {
+		return false
+	}
+	for _, a := range t.unit.actions {
+		if a == fs.Sel.Name {
+			return true
+		}
+	}
+	return false
 }
